@@ -4,7 +4,7 @@ import os
 from pyvc.api import *
 from pyvc.spec import callee_of
 
-SPEC_IMPORTS = ['contracts.common', 'contracts.c01']
+SPEC_IMPORTS = ['contracts.common', 'contracts.c01', 'contracts.load']
 SPEC_FUNCTIONS = ['moves_with', 'rebase', 'to_path_spec1', 'to_path_spec2', 'with_final_newline', 'valid_renames',
                   'norm_lines', 'diff_header']
 
@@ -377,5 +377,6 @@ TRUSTED = ['pathlib.Path modelled as normalised POSIX strings (joinpath, relativ
 def dynamic_contracts(repo):
     """error clause of C07: the until-range check of extract_variable / extract_function rejects only positions that
     are really outside the text and hands the completed until-position to the refactoring (contracts shared with C01)"""
-    from contracts import c01
-    return [c for c in c01.CONTRACTS if c.id.endswith('.until')]
+    from contracts import c01, load
+    # ... and the text a refactoring rewrites is the text given or the file as it is now (contracts/load.py)
+    return [c for c in c01.CONTRACTS if c.id.endswith('.until')] + [load.parse_and_get_code]
